@@ -81,6 +81,11 @@ func refFactor(meta map[string]any, cfg *hnsw.MemoryConfig, nowSec float64) (fac
 		}
 		return 0, true, "step"
 	case "ebbinghaus":
+		if acc < 0 {
+			// the documented stability half*(1+ln(1+count)) is not defined for a negative count (a caller can
+			// store one): only the bounds are judged - a factor in [0,1], never NaN
+			return 0, false, "ebbinghaus with a negative access count"
+		}
 		return math.Exp(-age / (half * (1 + math.Log1p(acc)))), true, "ebbinghaus"
 	}
 	return 0, false, "unknown model " + model
@@ -148,6 +153,9 @@ func runC15(w *World, tr *Trace) {
 			}
 			if r.Intn(4) == 0 {
 				meta["_access_count"] = num(float64(r.Intn(5)))
+				if r.Intn(6) == 0 {
+					meta["_access_count"] = num(float64(-1 - r.Intn(4))) // nothing stops a caller from storing a negative count
+				}
 			}
 			vec := []float32{1, float32(i%3) * 0.25}
 			if r.Intn(3) == 0 {
